@@ -135,6 +135,16 @@ CEX = {
 }
 
 
+# Obligations whose proof rests on bit-vector reasoning: an equivalent rewrite of the masks / shifts (`u8::MAX >> (8 - n)`
+# for `((1u16 << n) - 1) as u8`) can make Verus fail although the function is unchanged in behaviour.  For these a failed
+# proof becomes a VIOLATION only together with a failing input found by the associated native harness (rule D17);
+# without one it is undecided.
+FRAGILE = (
+    "huffman.BitIterator::next#ensures.chunk_bits",
+    "huffman.BitIterator::next#safety.shift",
+)
+
+
 def cex_for(obligation):
     for k, h in CEX.items():
         if obligation.startswith(k):
